@@ -114,6 +114,8 @@ def cases(tier, seed):
                                                         (True, False), ("functor", "factory")):
         yield {"kind": "container-valued-elements", "cfg": _cfg(pool, 2, 1.0, None, 2 if pool == "factory" else None),
                "calls": [{"ordered": ordered, "n": n, "cs": cs, "elem": elem}]}
+    for kind, ordered, cs in itertools.product(("deque", "tuple", "range", "circular"), (True, False), (1, 2)):
+        yield {"kind": "input-container", "cfg": _cfg("functor", 2, 1.0, None), "calls": [{"ordered": ordered, "n": 5, "cs": cs, "container": kind}]}
     for pool in ("functor", "factory"):
         yield {"kind": "two-pools-interleaved", "cfg": _cfg(pool, 2, 1.0, None), "n": 6}
     rng = random.Random(seed)
